@@ -52,6 +52,7 @@ type FnCtx struct {
 	depth        int
 	closure      bool
 	globalWrites []*types.Var
+	firedWhere   map[string]bool // program points of assert clauses that were reached
 	gen          *genInfo // non-nil: a closure of generated code (call-site hooks active)
 	nameSuffix   string   // appended to obligation names while deferred calls run at an exit
 }
@@ -197,7 +198,11 @@ func (fc *FnCtx) checkRunning(st *State, after ast.Stmt) {
 		if t == nil {
 			continue
 		}
-		fc.oblige(st, fmt.Sprintf("running%d", k+1), t, after.Pos(), rc.Text)
+		ord := rc.Ord
+		if ord == 0 {
+			ord = k + 1
+		}
+		fc.oblige(st, fmt.Sprintf("running%d", ord), t, after.Pos(), rc.Text)
 		st.Assume(t)
 	}
 }
@@ -844,7 +849,11 @@ func (fc *FnCtx) checkInvariants(st *State, ls *LoopSpec, n int, phase string, e
 		sc := fc.specCtx(st, extraScope)
 		sc.pol = 1
 		t := sc.evalBool(inv.Expr)
-		fc.obligeNamed(st, fmt.Sprintf("%s#loop%d.inv%d.%s", fc.name, n, k+1, phase), "invariant", t, pos, inv.Text)
+		ord := inv.Ord
+		if ord == 0 {
+			ord = k + 1
+		}
+		fc.obligeNamed(st, fmt.Sprintf("%s#loop%d.inv%d.%s", fc.name, n, ord, phase), "invariant", t, pos, inv.Text)
 	}
 }
 
@@ -1142,6 +1151,7 @@ func (fc *FnCtx) applyUsesScope(st *State, where string, extra map[string]Value)
 	}
 	for _, a := range fc.c.Asserts {
 		if a.Where == where && fc.e.applies(&Clause{Props: a.Props}) {
+			fc.firedWhere[a.Where] = true
 			sc := fc.specCtx(st, extra)
 			sc.pol = 1
 			t := sc.evalBool(a.Expr)
